@@ -127,8 +127,8 @@ impl Campaign for C10c {
     }
     fn runs(&self, tier: Tier) -> u64 {
         match tier {
-            Tier::Quick => 12_000,
-            Tier::Thorough => 500_000,
+            Tier::Quick => 150_000,
+            Tier::Thorough => 4_000_000,
         }
     }
     fn generate(&self, rng: &mut Rng, index: u64, _tier: Tier) -> Scenario {
@@ -245,8 +245,8 @@ impl Campaign for C16c {
     }
     fn runs(&self, tier: Tier) -> u64 {
         match tier {
-            Tier::Quick => 12_000,
-            Tier::Thorough => 500_000,
+            Tier::Quick => 120_000,
+            Tier::Thorough => 4_000_000,
         }
     }
     fn generate(&self, rng: &mut Rng, index: u64, _tier: Tier) -> Scenario {
@@ -312,8 +312,8 @@ impl Campaign for C12c {
     }
     fn runs(&self, tier: Tier) -> u64 {
         match tier {
-            Tier::Quick => 12_000,
-            Tier::Thorough => 500_000,
+            Tier::Quick => 100_000,
+            Tier::Thorough => 3_000_000,
         }
     }
     fn generate(&self, rng: &mut Rng, index: u64, _tier: Tier) -> Scenario {
